@@ -6,6 +6,7 @@ import numqi
 from symnp import ir, scalars as S, arrays as A, facade
 from symnp.scalars import SC
 from . import common as H
+from . import torchsup as T
 
 TOL = 1e-9
 ch = numqi.channel
@@ -43,8 +44,20 @@ def eqs(xs, ys):
     return ir.band_all(H.eq_sc(a, b) for a, b in zip(xs, ys))
 
 
+BACKEND = {
+    'kraus_op_to_choi_op': lambda a, t: ch.kraus_op_to_choi_op(a[0]),
+    'apply_choi_op': lambda a, t: ch.apply_choi_op(a[0], a[1]),
+    'apply_kraus_op': lambda a, t: ch.apply_kraus_op(a[0], a[1]),
+    'apply_super_op': lambda a, t: ch.apply_super_op(a[0], a[1]),
+}
+
+
 def replay(p):
     what = p['what']
+    if what == 'backend':
+        arrs = [H.from_payload_cx(p, k) for k in p['names']]
+        bad, msg = T.replay_backend(BACKEND[p['fn']], arrs)
+        return bad, f"{p['fn']} (shapes {[a.shape for a in arrs]}): {msg}"
     if what == 'builtin':
         rate = p['rate']
         K = getattr(ch, p['name'])(rate)
@@ -96,7 +109,7 @@ def run(chk):
            'numqi.channel.hf_channel_to_choi_op', 'numqi.channel.choi_op_to_bloch_map', 'numqi.channel.hf_dephasing_kraus_op',
            'numqi.channel.hf_depolarizing_kraus_op', 'numqi.channel.hf_amplitude_damping_kraus_op', 'numqi.gellmann.matrix_to_gellmann_basis')
     chk.register_replayer('c12', replay)
-    chk.out_of_claim('choi_op_to_kraus_op / super_op_to_kraus_op (eigh); trace distance, fidelity, entropies, relative entropy and every monotonicity statement (eigen-decompositions, logarithms); torch backend')
+    chk.out_of_claim('choi_op_to_kraus_op / super_op_to_kraus_op (eigh); trace distance, fidelity, entropies, relative entropy and every monotonicity statement (eigen-decompositions, logarithms); torch backend of functions other than kraus_op_to_choi_op / apply_choi_op / apply_kraus_op / apply_super_op (the others are NumPy-only code)')
     sizes = [(din, dout, N) for din in (1, 2, 3) for dout in (1, 2, 3) for N in (1, 2, 3)]
     if quick:
         sizes = [s for s in sizes if s[0] * s[1] * s[2] <= 8 or s in ((3, 2, 2), (2, 3, 2), (3, 3, 1))]
@@ -155,6 +168,21 @@ def run(chk):
                 for i, (x, y) in enumerate(zip(H.elems(lhs), H.elems(rhs))):
                     chk.add(f'Bloch(channel(rho))[{i}] == A.Bloch(rho)+b ' + cfg, ctx.facts + [tr1], H.eq_sc(x, y), key='choi_op_to_bloch_map',
                             replay=('c12', lambda m, K=K, rh=rh: H.payload_cx(m, {'K': K, 'rho': rh}, what='bloch')))
+    # ---- PyTorch branch == NumPy branch on the same symbolic operands (symnp.symtorch)
+    trng = random.Random(chk.seed + 1)
+    for din, dout, N in [s for s in sizes if s[0] * s[1] * s[2] <= (8 if quick else 18)]:
+        tag = f't{din}{dout}{N}'
+        K = H.cx_array('k' + tag, (N, dout, din))
+        rho = H.cx_array('r' + tag, (din, din))
+        C = H.cx_array('c' + tag, (din * dout, din * dout))
+        Sop = H.cx_array('s' + tag, (dout * dout, din * din))
+        cfg = f'[din={din},dout={dout},N={N}]'
+        for fn, arrs, names in (('kraus_op_to_choi_op', [K], ['K']), ('apply_choi_op', [C, rho], ['C', 'rho']), ('apply_kraus_op', [K, rho], ['K', 'rho']),
+                                ('apply_super_op', [Sop, rho], ['S', 'rho'])):
+            if N > 1 and fn in ('apply_choi_op', 'apply_super_op'):
+                continue
+            rp = ('c12', lambda m, fn=fn, arrs=arrs, names=names: H.payload_cx(m, dict(zip(names, arrs)), what='backend', fn=fn, names=names))
+            T.backend_equiv(chk, f'{fn} {cfg}', BACKEND[fn], arrs, rp, f'{fn}', rng=trng)
     # built-in channels: CPTP for every rate in [0,1]
     p = S.sc_var('rate')
     pre = [(p >= 0).n, (p <= 1).n]
